@@ -733,6 +733,8 @@ impl Response {
         total_bytes: i32,
         mut bytes_read: i32) -> Result<(), String> {
 
+        // one loop iteration per line: a call per header line needs a stack frame per line
+        loop {
         let mut buffer = vec![];
         let boxed_read = cursor.read_until(b'\n', &mut buffer);
         if boxed_read.is_err() {
@@ -879,9 +881,10 @@ impl Response {
             }
 
             iteration_number += 1;
-            return Response::parse_raw_response_via_cursor(cursor, iteration_number, response, content_length, total_bytes, bytes_read );
+            // next line, with the same cursor, response, content_length and bytes_read
         } else {
             return Err("unable to parse".to_string());
+        }
         }
     }
 
